@@ -141,6 +141,9 @@ def check(ctx):
             got.append((int(m.group(1)) if m else None, getattr(nm, "name", None)))
         want = [(c, f"attr#{c}") for c in created]
         nchk += 1
+        ro = [e for e in p.trace if e.kind == "reorder"]
+        if ro and len(created) >= 2:
+            bad.add(f"_create_components reorders a list of components ({ro[0].name}() with a key that depends on the components): they would not run in declaration order")
         if got != want:
             bad.add(f"the component list holds (creation index, name) {got} but the components were created in the order {want}: execute()/on_enable()/on_disable() would not run in declaration order")
     for b in sorted(bad):
